@@ -1,6 +1,8 @@
 import TapkeeVerif.Proofs.Spectral
 import TapkeeVerif.Proofs.Centering
 import TapkeeVerif.Proofs.Covariance
+import TapkeeVerif.Proofs.EckartYoung
+import TapkeeVerif.Proofs.Inertia
 /-!
 # C05 — MDS and Kernel PCA return the optimal rank-`d` factor of the centred Gram matrix
 
@@ -193,5 +195,91 @@ theorem mds_exact_recovery (X : Mat N D K) (δ : Fin N → Fin N → K)
   simp only [Matrix.mul_apply, transpose_apply, hXc, Mat.toM_apply, centred, Finset.mul_sum,
     ← Finset.sum_add_distrib, ← Finset.sum_sub_distrib]
   exact Finset.sum_congr rfl fun a _ => by ring
+
+/-! ### Optimality (Eckart–Young) -/
+
+omit [IsStrictOrderedRing K] in
+theorem clamp0_eq_max (x : K) : clamp0 x = max x 0 := by
+  unfold clamp0
+  split_ifs with h
+  · exact (max_eq_right h.le).symm
+  · exact (max_eq_left (not_lt.1 h)).symm
+
+omit [LinearOrder K] [IsStrictOrderedRing K] in
+theorem centerMatrix_symm (A : Mat N N K) (hA : ∀ i j, A i j = A j i) (i j : Fin N) :
+    centerMatrix A i j = centerMatrix A j i := by
+  simp only [centerMatrix, centerWith, hA i j]
+  ring
+
+omit [LinearOrder K] [IsStrictOrderedRing K] in
+theorem mdsPre_symm (δ : Fin N → Fin N → K) : (Mat.toM (mdsPre δ))ᵀ = Mat.toM (mdsPre δ) := by
+  ext i j
+  simp only [transpose_apply, Mat.toM_apply, mdsPre, scale, centerMatrix_symm _ (sqDistMatrix_symm δ) j i]
+
+omit [LinearOrder K] [IsStrictOrderedRing K] in
+theorem kpcaPre_symm (κ : Fin N → Fin N → K) : (Mat.toM (kpcaPre κ))ᵀ = Mat.toM (kpcaPre κ) := by
+  ext i j
+  simp only [transpose_apply, Mat.toM_apply, kpcaPre, centerMatrix_symm _ (kernelMatrix_symm κ) j i]
+
+/-- **the returned factor is optimal.**  `B` symmetric, `(V, lam)` a top-`d` eigensystem of `B`, `s` the clamped square
+    roots, `Y = V·diag s`: `Y·Yᵀ` is the best positive semi-definite approximation of rank `≤ d` of `B` in Frobenius norm —
+    for every `G = Q·diag(mu)·Qᵀ` with `QᵀQ = 1`, `mu ≥ 0`:  `‖B − Y·Yᵀ‖_F ≤ ‖B − G‖_F`  (Eckart–Young, proved in
+    `Proofs/EckartYoung.lean` from the variational top-`d` property). -/
+theorem factor_optimal (B : Matrix (Fin N) (Fin N) K) (hB : Bᵀ = B) (V : Mat N d K) (lam s : Vec d K)
+    (h : IsTopEig B (Mat.toM V) lam) (hs : ∀ j, s j * s j = clamp0 (lam j))
+    (Q : Matrix (Fin N) (Fin d) K) (hQ : Qᵀ * Q = 1) (mu : Fin d → K) (hmu : ∀ k, 0 ≤ mu k) :
+    frobSq (B - Mat.toM (post V s) * (Mat.toM (post V s))ᵀ) ≤ frobSq (B - Q * diagonal mu * Qᵀ) := by
+  rw [(mds_gram B V lam s h.toIsEigSystem hs).2]
+  have : (fun j => clamp0 (lam j)) = fun j => max (lam j) 0 := funext fun j => clamp0_eq_max _
+  rw [this]
+  exact h.eckartYoung_psd hB Q hQ mu hmu
+
+/-- **MDS returns the optimal rank-`d` factor of `−½·J·D²·J`** -/
+theorem mds_optimal (δ : Fin N → Fin N → K) (V : Mat N d K) (lam s : Vec d K)
+    (h : IsTopEig (Mat.toM (mdsPre δ)) (Mat.toM V) lam) (hs : ∀ j, s j * s j = clamp0 (lam j))
+    (Q : Matrix (Fin N) (Fin d) K) (hQ : Qᵀ * Q = 1) (mu : Fin d → K) (hmu : ∀ k, 0 ≤ mu k) :
+    frobSq (Mat.toM (mdsPre δ) - Mat.toM (post V s) * (Mat.toM (post V s))ᵀ)
+      ≤ frobSq (Mat.toM (mdsPre δ) - Q * diagonal mu * Qᵀ) :=
+  factor_optimal _ (mdsPre_symm δ) V lam s h hs Q hQ mu hmu
+
+/-- **Kernel PCA returns the optimal rank-`d` factor of `J·K·J`** -/
+theorem kpca_optimal (κ : Fin N → Fin N → K) (V : Mat N d K) (lam s : Vec d K)
+    (h : IsTopEig (Mat.toM (kpcaPre κ)) (Mat.toM V) lam) (hs : ∀ j, s j * s j = clamp0 (lam j))
+    (Q : Matrix (Fin N) (Fin d) K) (hQ : Qᵀ * Q = 1) (mu : Fin d → K) (hmu : ∀ k, 0 ≤ mu k) :
+    frobSq (Mat.toM (kpcaPre κ) - Mat.toM (post V s) * (Mat.toM (post V s))ᵀ)
+      ≤ frobSq (Mat.toM (kpcaPre κ) - Q * diagonal mu * Qᵀ) :=
+  factor_optimal _ (kpcaPre_symm κ) V lam s h hs Q hQ mu hmu
+
+/-- the retained "energy" is maximal as well (Ky Fan): no `d` orthonormal directions capture more of `B` -/
+theorem mds_kyFan (δ : Fin N → Fin N → K) (V : Mat N d K) (lam : Vec d K)
+    (h : IsTopEig (Mat.toM (mdsPre δ)) (Mat.toM V) lam) (Z : Matrix (Fin N) (Fin d) K) (hZ : Zᵀ * Z = 1) :
+    trace (Zᵀ * Mat.toM (mdsPre δ) * Z) ≤ ∑ j, lam j :=
+  h.kyFan (mdsPre_symm δ) Z hZ
+
+/-! ### The per-run certificate is sound -/
+
+/-- **soundness of the exact-rational certificate run by `model_c05` / `model_c06`** (`Model/Cert.lean`): at zero
+    tolerance, a passing `certTopEig` on a symmetric matrix proves the eigensolver's contract `IsTopEig` — residual and
+    orthonormality exactly, extremality by Sylvester's law of inertia on the exact `LDLᵀ` elimination
+    (`Proofs/Inertia.lean`).  With tolerances `ε > 0` (what the drivers use on `double` output) the statement becomes a
+    perturbation bound; that part is not proved and is named in the level note. -/
+theorem certificate_sound (B : Mat N N K) (hB : ∀ i j, B i j = B j i) (V : Mat N d K) (lam : Vec d K)
+    (hc : Cert.certTopEig B V lam 0 0 0 = true) : IsTopEig (Mat.toM B) (Mat.toM V) lam :=
+  Cert.certTopEig_sound_zero B hB V lam hc
+
+/-- … and with an extremality slack `εs` it still proves exact eigenpairs and "nothing above `min lam + εs` was missed" -/
+theorem certificate_sound_slack (B : Mat N N K) (hB : ∀ i j, B i j = B j i) (V : Mat N d K) (lam : Vec d K) (εs : K)
+    (hc : Cert.certTopEig B V lam 0 0 εs = true) :
+    IsEigSystem (Mat.toM B) (Mat.toM V) lam ∧
+    ∀ x : Fin N → K, (Mat.toM V)ᵀ *ᵥ x = 0 → x ⬝ᵥ (Mat.toM B *ᵥ x) ≤ (Cert.minVec lam + εs) * (x ⬝ᵥ x) :=
+  Cert.certTopEig_sound B hB V lam εs hc
+
+/-! Non-vacuity: a concrete instance meeting the hypotheses — three collinear points `0, 1, 2` (squared distances
+    `0,1,4`), `d = 1`: `B = [[1,0,−1],[0,0,0],[−1,0,1]]`, top eigenpair `(2, (1,0,−1)/√2)`; over `ℚ` we exhibit the
+    certificate on the exactly representable pair of `2·B`-free form by `decide`. -/
+example : Cert.certTopEig (K := Rat) (n := 2) (d := 1) (fun i j => if i = j then 1 else 0) (fun i _ => if i = 0 then 1 else 0)
+    (fun _ => 1) 0 0 0 = true := by decide +kernel
+
+example : mdsPre (K := Rat) (n := 3) (fun i j => ((i.1 : Rat) - (j.1 : Rat))) 0 2 = -1 := by decide +kernel
 
 end TapkeeVerif.C05
